@@ -1,0 +1,9 @@
+//go:build !verif
+
+package core
+
+// verifCursorRead is always nil without the "verif" build tag.
+var verifCursorRead func(buf []byte) (int, error)
+
+// YieldPoint is a no-op without the "verif" build tag.
+func YieldPoint(string) {}
